@@ -8,7 +8,7 @@ from .c01 import reply_ok
 
 ID = "C07"
 BUDGET = {"quick": 45, "thorough": 700}
-MAX_RUNS = {"quick": 1500, "thorough": 300000}
+MAX_RUNS = {"quick": 8000, "thorough": 300000}
 TECHNIQUE = "deterministic simulation: credential histories against the verdict cache on the virtual clock, external auth command stubbed with a time-varying verdict table, TLS certificate matrix on both hops; 'unauthenticated peer never reaches an upstream' observed at the origin"
 RULE = ("plans (a) SOCKS credentials: auth.required x user list x external command (verdict table that may change over time, latency) x cache.timeout in {0,2,10} x "
         "2-7 attempts (method offers in every subset/order of {0,1,2,0x80}; valid/wrong/empty/255-byte/non-UTF-8 credentials; SOCKS4 ids; right-then-wrong, "
